@@ -53,9 +53,18 @@ def gen_case(rng, k, quick, kind=None):
             L.append("req %d 0 0 0 %d %d" % (c, W, H))
             L.append("tick %d" % c)
     n = rng.choice([8, 14, 22, 30])
+    closed = set()
     for _ in range(n):
         r = rng.random()
-        c = rng.randrange(ncl)
+        alive = [q for q in range(ncl) if q not in closed]
+        # a client is closed (rfbCloseClient) and reaped only later: "closed, not yet reaped" across other operations
+        if rng.random() < 0.05 and len(alive) > 1:
+            q = rng.choice(alive); closed.add(q); L.append("close %d" % q); continue
+        if rng.random() < 0.05:
+            L.append("reap"); continue
+        if not alive:
+            break
+        c = rng.choice(alive)
         if r < 0.16:
             # grow / shrink / same size, depth change or not; boundary sizes
             how = rng.random()
@@ -97,7 +106,11 @@ def gen_case(rng, k, quick, kind=None):
             L.append(setenc(c))
         else:
             L.append("knobs %d %d" % (rng.choice([0, 1, 2, 50]), rng.choice([0, 0, 2, 5])))
+    if closed and rng.random() < 0.7:
+        L.append("reap")
     for c in range(ncl):
+        if c in closed:
+            continue
         for _ in range(3):
             L.append("req %d 1 0 0 %d %d" % (c, W, H))
             L.append("tick %d" % c)
@@ -128,8 +141,18 @@ def gen_scaled(rng, k, quick):
         if p[0] == "setenc":
             modes[int(p[1])] = "none" if (p[4] == "0" and p[5] == "0") else "resize"
     isscaled = {c: False for c in range(ncl)}
+    closed = set()
     for _ in range(rng.choice([6, 10, 16])):
-        r = rng.random(); c = rng.randrange(ncl)
+        alive = [q for q in range(ncl) if q not in closed]
+        if rng.random() < 0.10 and alive:
+            q = rng.choice(alive); closed.add(q); L.append("close %d" % q); continue
+        if rng.random() < 0.08:
+            L.append("reap"); continue
+        if not alive:
+            L.append("newfb %d %d %d %d" % (max(1, W + rng.choice([-2, 0, 3])), H, bpp, rng.randint(0, 999)))
+            L.append("reap")
+            break
+        r = rng.random(); c = rng.choice(alive)
         if r < 0.30:
             n = rng.choice([1, 2, 2, 3, 4, max(W, H) + 1])
             L.append("setscale %d %d" % (c, n))
@@ -157,6 +180,8 @@ def gen_scaled(rng, k, quick):
             if not isscaled[c]:
                 L.append(C02.rnd_req(rng, W, H, c, False))
                 L.append("tick %d" % c)
+    if closed:
+        L.append("reap")
     return L
 
 
@@ -204,6 +229,14 @@ def boundary_cases(k0):
     add("scaled", 12, 8, 4, ["setcursor 0", "addclient", "setenc 0 0 1 1 0", "setscale 0 2", "send 0", "newfb 24 16 4 7", "send 0"])
     add("scaled", 12, 8, 4, ["setcursor 0", "addclient", "addclient", "setenc 0 0 1 0 0", "setenc 1 0 1 0 1", "setscale 0 2",
         "setscale 1 2", "send 1", "setscale 1 4", "setscale 0 13", "setscale 1 1", "send 1", "newfb 6 4 2 3", "setscale 0 1"])
+    # closed but not reaped across rfbNewFramebuffer: unscaled client, scaled client (F12c), both
+    add("resize", 12, 8, 4, ["setcursor 0", "addclient", "addclient", "setenc 0 1 1 1 0", "setenc 1 1 1 0 0",
+        "req 0 0 0 0 12 8", "tick 0", "close 0", "draw 1 1 5 5 3", "newfb 6 4 2 7", "docopyrect 2 1 5 3 1 1", "reap",
+        "req 1 0 0 0 6 4", "tick 1", "tick 1"])
+    add("scaled", 12, 8, 4, ["setcursor 0", "addclient", "addclient", "setenc 0 0 1 1 0", "setenc 1 0 1 1 0", "setscale 0 2",
+        "send 0", "close 0", "newfb 24 16 4 7", "draw 0 0 3 3 1", "reap", "send 1"])
+    add("scaled", 12, 8, 4, ["setcursor 0", "addclient", "addclient", "setenc 0 0 1 1 0", "setenc 1 0 1 1 0", "setscale 0 2",
+        "setscale 1 2", "close 0", "reap", "newfb 24 16 4 7", "send 1", "close 1", "newfb 12 8 4 1", "newfb 6 4 4 2", "reap"])
     C.append(gen_f12(__import__("random").Random(5), k0 + len(C)))
     return C
 
